@@ -147,7 +147,6 @@ class CTS_CBC(Mode):
             mprev = self._cipher.dec(clast+mend[p:])
             M.insert(0,self.xorstr(clast,mend[:p]))
             M.insert(0,self.xorstr(C[-l:],mprev))
-        C = self.IV+C
         while len(C)>l:
             c = C[-l:]
             C = C[:-l]
